@@ -102,6 +102,14 @@ impl RefCount {
     }
 }
 
+/// Run one stage of the check; a panic inside a reader library becomes an issue.
+fn stage(name: &str, issues: &mut Issues, refs: &mut RefCount, body: impl FnOnce(&mut Issues, &mut RefCount)) {
+    let outcome = std::panic::catch_unwind(std::panic::AssertUnwindSafe(|| body(issues, refs)));
+    if outcome.is_err() {
+        issues.add(&format!("reader-panic:{name}"), format!("a reader panicked during the '{name}' stage"));
+    }
+}
+
 /// Check one font file.
 pub fn check_font(bytes: &[u8]) -> (Summary, Vec<Issue>) {
     let mut issues = Issues::default();
@@ -116,35 +124,39 @@ pub fn check_font(bytes: &[u8]) -> (Summary, Vec<Issue>) {
     summary.has_gpos = sfnt.has(b"GPOS");
 
     // 2. required tables; open every table; traverse every field
+    //    (cross-table references are range-checked as the traversal meets them)
     tables::check_required(&sfnt, &mut issues);
     let font = tables::Font::open(&sfnt, &mut issues);
     summary.num_glyphs = font.num_glyphs.unwrap_or(0);
     tables::check_head(&font, &mut issues);
-    //    (cross-table references are range-checked as the traversal meets them)
-    {
-        let mut checker = refs::RefChecker::new(refs::Bounds::of(&font), &mut issues, &mut refs);
+    stage("traversal", &mut issues, &mut refs, |issues, refs| {
+        let mut checker = refs::RefChecker::new(refs::Bounds::of(&font), issues, refs);
         tables::traverse_all(&sfnt, &font, &mut checker, &mut summary);
-    }
-    refs::check_colr_layers(&font, &mut issues, &mut refs);
-    refs::check_pairpos2_devices(&font, &mut issues, &mut refs);
-    refs::check_extension_lookups(&font, &mut issues, &mut refs);
+    });
+    stage("layout", &mut issues, &mut refs, |issues, refs| {
+        refs::check_colr_layers(&font, issues, refs);
+        refs::check_pairpos2_devices(&font, issues, refs);
+        refs::check_extension_lookups(&font, issues, refs);
+    });
 
     // 3. glyphs
-    let glyph_stats = glyphs::check_glyphs(&font, &mut issues, &mut refs);
-    summary.composite_glyphs = glyph_stats.composite_glyphs;
-    summary.max_component_depth = glyph_stats.max_component_depth;
+    stage("glyphs", &mut issues, &mut refs, |issues, refs| {
+        let glyph_stats = glyphs::check_glyphs(&font, issues, refs);
+        summary.composite_glyphs = glyph_stats.composite_glyphs;
+        summary.max_component_depth = glyph_stats.max_component_depth;
+    });
 
     // 4. glyph-count agreement
-    counts::check_counts(&font, &mut issues);
+    stage("counts", &mut issues, &mut refs, |issues, _| counts::check_counts(&font, issues));
 
     // 5. cmap
-    cmap::check_cmap(&font, &mut issues, &mut refs);
+    stage("cmap", &mut issues, &mut refs, |issues, refs| cmap::check_cmap(&font, issues, refs));
 
     // 6. variations
-    variations::check_variations(&font, &mut issues, &mut refs);
+    stage("variations", &mut issues, &mut refs, |issues, refs| variations::check_variations(&font, issues, refs));
 
     // 7. second reader
-    second::check_with_skrifa(bytes, &font, &mut issues);
+    stage("skrifa", &mut issues, &mut refs, |issues, _| second::check_with_skrifa(bytes, &font, issues));
 
     summary.refs_checked = refs.by_kind.values().sum();
     summary.refs_by_kind = refs.by_kind;
